@@ -1,9 +1,12 @@
 """Solver-level checks.  Engine `seq` (sequential solver) and engine `par` (parallel solver, scheduler)."""
-import json, os, re
+import json, re, os, re
 from concurrent.futures import ThreadPoolExecutor
 from vlib import *
 
 KNOWN_SIGS = {"D5": "pooled-longarcs-root-in-cutset"}
+
+
+SWEEP = {"runs": 0, "suspects": 0}
 
 
 def seq_batches(w, tier, plan, name="seq"):
@@ -15,7 +18,11 @@ def seq_batches(w, tier, plan, name="seq"):
         for i, (mode, fam, maxn, nq, nt, extra) in enumerate(plan):
             tr = os.path.join(w, f"{name}_{mode}_{fam}_{maxn}_{b}.ndjson")
             args = ["--seed", SEED * 1000 + b * 17 + i, "--instances", nt if thorough else nq, "--family", fam, "--mode", mode, "--maxn", maxn, "--out", tr] + list(extra)
-            run_bin("seq", args)
+            p = run_bin("seq", args)
+            m = re.search(r"SWEEP runs=(\d+) suspects=(\d+)", p.stderr or "")
+            if m:
+                SWEEP["runs"] += int(m.group(1))
+                SWEEP["suspects"] += int(m.group(2))
             out.append((tr, args))
     return out
 
@@ -118,6 +125,8 @@ def simple_seq_check(pid, plan, rule_extra=""):
             first = first or runs
         chk.cov["samples"] = [{"run": sample_run(first)}]
         chk.cov["rule"] = SEQ_RULE + rule_extra
+        if SWEEP["runs"]:
+            chk.cov["unlogged_sweep"] = dict(SWEEP, note="runs solved without logging; the suspects (outcome differs from the engine's own optimum) were re-run logged and are among the validated traces")
         chk.assumptions = SEQ_ASSUME
         extra_parts(chk, w, tier)
         return chk.finish()
@@ -245,11 +254,12 @@ def c17_runs(chk, w, tier):
 
 
 CHECKS = {
-    "C01": simple_seq_check("C01", [("base", "allimpacted", 6, 300, 600, []), ("base", "allimpacted", 7, 120, 300, []), ("base", "allimpacted", 8, 150, 400, []), ("base", "reconv", 8, 60, 200, [])]),
+    "C01": simple_seq_check("C01", [("base", "allimpacted", 6, 300, 600, ["--sweep", 150]), ("base", "allimpacted", 7, 120, 300, ["--sweep", 150]), ("base", "allimpacted", 8, 150, 400, []), ("base", "reconv", 8, 60, 200, ["--sweep", 100])],
+                            "; sweep: 150 (100) further instances per listed instance are solved unlogged, the runs whose outcome disagrees with the engine's own optimum are re-run logged and judged by TLC"),
     "C14": simple_seq_check("C14", [("primal", "allimpacted", 6, 200, 500, []), ("primal", "allimpacted", 7, 60, 200, [])], "; warm starts: the oracle's optimal and worst feasible witness solutions, alone, in both orders, and the same value twice with different solutions"),
     "C19": simple_seq_check("C19", [("cutoff", "allimpacted", 6, 120, 300, []), ("cutoff", "allimpacted", 7, 50, 150, []), ("cutoff", "knapsack", 9, 60, 200, []), ("cutoff", "setpack", 9, 20, 80, []),
                                     ("cutoff", "reconv", 8, 80, 250, ["--cfg", json.dumps({"fringe": "nodup", "width": 1})]), ("cutoff", "knapsack", 8, 60, 200, ["--cfg", json.dumps({"fringe": "nodup"})])], "; cutoff series: the run repeated with the cutoff firing at every poll index k = 1..K+1, consecutive outcomes compared"),
-    "C09": simple_seq_check("C09", [("cache", "allimpacted", 6, 300, 700, []), ("cache", "allimpacted", 7, 120, 300, []), ("cache", "allimpacted", 8, 30, 100, [])],
+    "C09": simple_seq_check("C09", [("cache", "allimpacted", 6, 300, 700, ["--sweep", 100]), ("cache", "allimpacted", 7, 120, 300, ["--sweep", 100]), ("cache", "allimpacted", 8, 30, 100, [])],
                             "; each configuration is run without and with the threshold cache (and with cache + dominance): outcomes compared, and the route monitor C09_RouteExists "
                             "(some optimal solution stays reachable through an open node that neither its bound nor a threshold discards) is evaluated by TLC at every pop"),
     "C10": simple_seq_check("C10", [("dom", "allimpacted", 6, 500, 900, []), ("dom", "allimpacted", 7, 250, 500, []), ("dom", "allimpacted", 8, 60, 150, [])],
@@ -258,7 +268,7 @@ CHECKS = {
                             "; C02 is evaluated on the outcome of every run: uninterrupted, warm-started, cut off at every poll index"),
     "C05": simple_seq_check("C05", [("cutoff", "allimpacted", 6, 150, 400, []), ("cutoff", "allimpacted", 7, 50, 150, []), ("cutoff", "knapsack", 9, 40, 150, []), ("cutoff", "longarcs", 6, 30, 100, [])],
                             "; cutoff series: the cutoff fires at every poll index k = 1..K+1 (K = polls of the uninterrupted run)"),
-    "C15": simple_seq_check("C15", [("longarc", "longarcs", 6, 300, 800, []), ("longarc", "longarcs", 7, 100, 300, [])], "; long-arc models (depth-free lifted tables with neutral elements, set-packing with is_impacted_by): plain diagram vs pooled, cache off/on"),
+    "C15": simple_seq_check("C15", [("longarc", "longarcs", 6, 300, 800, ["--sweep", 150]), ("longarc", "longarcs", 7, 100, 300, ["--sweep", 150])], "; long-arc models (depth-free lifted tables with neutral elements, set-packing with is_impacted_by): plain diagram vs pooled, cache off/on"),
 }
 
 
